@@ -35,7 +35,8 @@ THEOREMS = {
     "C03": _gt("errEnum_eq", "specials_eq", "buildOpts_eq") + [("Eav.Props.C03", "Eav.Props.C03." + n) for n in
             ("utf8_iff", "local6531_iff", "invalid_utf8_rejected", "ascii_agrees_5321", "nonascii_between_dots")] +
            [("Eav.Lemmas.Utf8", "Eav.decodeNext_sound"), ("Eav.Lemmas.Utf8", "Eav.decodeNext_complete"), ("Eav.Lemmas.Utf8", "Eav.decAll_iff"),
-            ("Eav.Lemmas.Local6531", "Eav.is6531Local_iff"), ("Eav.Lemmas.LocalGrammar", "Eav.Spec.specLocal_iff")],
+            ("Eav.Lemmas.Local6531", "Eav.is6531Local_iff"), ("Eav.Lemmas.LocalGrammar", "Eav.Spec.specLocal_iff"),
+            ("Eav.Lemmas.Local6531C", "Eav.is6531LocalC_eq")],
     "C04": _gt("errEnum_eq", "limits_eq", "buildOpts_eq") + [("Eav.Props.C04", "Eav.Props.C04." + n) for n in
             ("host_iff", "isAsciiDomain_iff_spec", "specHost_iff", "host6531_sound", "isAsciiDomain_nonpos")] + [("Eav.Lemmas.Domain", "Eav.domLoop_ok")],
     "C05": _gt("errEnum_eq") + [("Eav.Props.C05", n) for n in
